@@ -202,7 +202,7 @@ def check_C01(ctx):
         ctx.job("cli-current[%s]" % nm,
                 gens=[{"base": "GenCli", "consts": {"Docs": [Chars(d) for d in CLI_DOCS_DEFAULT[1:3]], "TargetPool": [Chars("a")],
                                                     "Zones": ["America/New_York", "EST5EDT,M3.2.0,M11.1.0", "Europe/Berlin", "CET-1CEST,M3.5.0,M10.5.0/3", "UTC"],
-                                                    "Langs": [""], "OmitAll": True, "Part": "stdout", "Currents": TlaSet(["given", "naive", "garbage"]), "ArgForms": ["eq"]}}],
+                                                    "Langs": [""], "OmitAll": True, "Part": "stdout", "Currents": TlaSet(["given", "naive", "garbage"]), "ArgForms": ["eq"], "Odds": [""]}}],
                 invariants=["Inv_C01"], ops=[], cli=True,
                 cfg={"ds": "<!-- <", "de": "> -->", "tl": "time-limited", "rm": "removal-marker", "off": "+00:00", "now": now, "targets": []},
                 nontrivial=None)
@@ -223,12 +223,12 @@ K = {"T1": ["T1", False], "T2": ["T2", False], "T3": ["T3", False], "T1u": ["T1"
 
 
 def lines_gen(L, D, E, kinds, unit="  ", base=0, free=(), ws=(), blank=True, suffix="", simulate=None, code_a="", code_b="",
-              mb=False, max_code=99, empty_default=False, pairs=False, preamble=0, inline=False, pair_kind="R", eol="\n", tag_sep=" ", flag_val="", quote="'", flags_first=False, tail=False, pad="", wide=False, free_tags=True, tail_kinds=None, crossing=False, free_code=True, extra_attr="", eq_pad=("", ""), edge="", lead=""):
+              mb=False, max_code=99, empty_default=False, pairs=False, preamble=0, inline=False, pair_kind="R", eol="\n", tag_sep=" ", flag_val="", quote="'", flags_first=False, tail=False, pad="", wide=False, free_tags=True, tail_kinds=None, crossing=False, free_code=True, extra_attr="", eq_pad=("", ""), edge="", lead="", open_pad=True):
     from vlib import TlaSet
     g = {"base": "GenLines", "constraint": "Feasible",
          "consts": {"L": L, "D": D, "E": E, "Kinds": TlaSet([K[k] for k in kinds]), "Unit": Chars(unit), "Base": base,
                     "FreeInd": TlaSet(list(free)), "FreeTags": free_tags, "FreeCode": free_code, "WsLens": TlaSet(list(ws)), "Blank": blank, "Suffix": Chars(suffix), "CodeA": Chars(code_a), "CodeB": Chars(code_b), "MbCode": mb, "MaxCode": max_code, "EmptyDefault": empty_default, "PairLines": pairs, "Preamble": preamble,
-                    "InlineTags": inline, "PairKind": K[pair_kind], "EOL": Chars(eol), "TagSep": Chars(tag_sep), "FlagVal": Chars(flag_val), "QuoteCh": ord(quote), "FlagsFirst": flags_first, "Crossing": crossing, "TailElems": tail, "TailKinds": TlaSet([K[k] for k in (tail_kinds or kinds)]), "TagPad": Chars(pad), "ExtraAttr": Chars(extra_attr), "EqPad": [Chars(eq_pad[0]), Chars(eq_pad[1])], "WideCode": wide, "EdgeCh": Chars(edge), "Lead": Chars(lead),
+                    "InlineTags": inline, "PairKind": K[pair_kind], "EOL": Chars(eol), "TagSep": Chars(tag_sep), "FlagVal": Chars(flag_val), "QuoteCh": ord(quote), "FlagsFirst": flags_first, "Crossing": crossing, "TailElems": tail, "TailKinds": TlaSet([K[k] for k in (tail_kinds or kinds)]), "TagPad": Chars(pad), "OpenPad": open_pad, "ExtraAttr": Chars(extra_attr), "EqPad": [Chars(eq_pad[0]), Chars(eq_pad[1])], "WideCode": wide, "EdgeCh": Chars(edge), "Lead": Chars(lead),
                     "PastTo": Chars(PAST), "FutureTo": Chars(FUTURE),
                     "Tos": [Chars(t) for t in TOS], "Names": [Chars(n) for n in MNAMES]}}
     if simulate:
@@ -293,6 +293,7 @@ def block_jobs(ctx, invariants, ops, lite=False):
                 dict(lines_gen(4, 2, 2, ["T", "P"], blank=False, max_code=2), cfg={"off": "-0800", "now": [10957, 14400]}),    # not yet expired only because of the offset
                 lines_gen(8, 1, 1, ["R"], blank=True, max_code=2, empty_default=True),                        # two and more blank lines on both sides of a block
                 dict(lines_gen(4, 2, 2, ["R", "T"], blank=False, tail=True, max_code=2, pad=" -"), cfg={"ds": "<!--", "de": "-->"}),   # the end delimiter's first character once more in front of it
+                dict(lines_gen(4, 2, 2, ["R", "T"], blank=False, tail=True, max_code=2, pad=" -", open_pad=False), cfg={"ds": "<!--", "de": "-->"}),   # ... in closing tags only
                 lines_gen(4, 2, 2, ["R", "P"], ws=(2,), lead="\ufeff"),                                          # a byte order mark in front of the document
                 lines_gen(4, 2, 2, ["R", "P"], blank=True, lead="m1;\r\n"),                                     # mixed line ends: one CRLF line in front of an LF document
                 lines_gen(4, 2, 2, ["R", "P"], blank=False, code_b="\r"),                                         # a lone carriage return inside a line of code
@@ -624,6 +625,8 @@ def check_C04(ctx):
     chars_jobs(ctx, ["Inv_C04"], [{"op": "clean"}], None, pairs_quick=2)
     junk_jobs(ctx, ["Inv_C04"], [{"op": "clean"}], None)
     pump_job(ctx, ["Inv_C04"], [{"op": "clean"}], ["open", "stray", "nest-p", "pending", "lines", "mb"], [100, 257] if ctx.quick else [100, 257, 300])
+    # the command on large sources without a ready element (the marker of the core is not among the targets)
+    cli_big_job(ctx, invariants=("Inv_C04",), targets=("zz",), ks=[1800, 3500])    # the reference view of the whole source is evaluated: smaller than in C20
     repo_docs_job(ctx, ["Inv_C04"], [{"op": "clean"}])
 
 
@@ -798,7 +801,7 @@ def check_C05(ctx):
         ctx.job("time-cli[%s]" % off,
                 gens=[{"base": "GenCli", "consts": {"Docs": [Chars(d) for d in docs], "TargetPool": [Chars("a")],
                                                     "Zones": ["UTC", "Asia/Tokyo", "America/Los_Angeles", "unset"] if not q else ["Asia/Tokyo", "unset"],
-                                                    "Langs": [""], "OmitAll": False, "Part": "clean_stdout", "Currents": TlaSet(["given"]), "ArgForms": ["eq"]}}],
+                                                    "Langs": [""], "OmitAll": False, "Part": "clean_stdout", "Currents": TlaSet(["given"]), "ArgForms": ["eq"], "Odds": [""]}}],
                 invariants=["Inv_C05", "Inv_C20"], ops=[], cli=True,
                 cfg={"ds": "<!-- <", "de": "> -->", "tl": "time-limited", "rm": "removal-marker", "off": off, "now": now},
                 nontrivial=None)
@@ -818,7 +821,7 @@ def check_C06(ctx):
     doc = "".join("<!-- <removal-marker name='%s'> -->\nx%d\n<!-- </removal-marker> -->\n" % (t, i)
                   for i, t in enumerate(["vec![]", "a", "", "feature1", "+00:00", "removal-marker", "b ", "b", " c", "c", "x,y", "x", "y"]))
     ctx.job("targets-cli", gens=[{"base": "GenCli", "consts": {"Docs": [Chars(doc)], "TargetPool": [Chars("a"), Chars("b "), Chars(" c"), Chars("x,y"), Chars("feature1")],
-                                                               "Zones": ["UTC"], "Langs": [""], "OmitAll": True, "Part": "stdout", "Currents": TlaSet(["given"]), "ArgForms": ["eq"]}}],
+                                                               "Zones": ["UTC"], "Langs": [""], "OmitAll": True, "Part": "stdout", "Currents": TlaSet(["given"]), "ArgForms": ["eq"], "Odds": [""]}}],
             invariants=["Inv_C06"], ops=[], cli=True,
             cfg={"ds": "<!-- <", "de": "> -->", "tl": "time-limited", "rm": "removal-marker", "off": "+00:00", "targets": []},
             nontrivial=None)
@@ -1074,20 +1077,20 @@ def check_C20(ctx):
     langs = [""] if q else ["", "C", "en_US.UTF-8", "ja_JP.UTF-8"]
     ctx.job("cli-defaults", gens=[{"base": "GenCli", "consts": {"Docs": [Chars(d) for d in (CLI_DOCS_DEFAULT[:5] if q else CLI_DOCS_DEFAULT)],
                                                                 "TargetPool": [Chars(""), Chars("a"), Chars("feature1"), Chars("x,y"), Chars("x y")],
-                                                                "Zones": zones, "Langs": langs, "OmitAll": True, "Part": "all", "Currents": TlaSet(["given"]), "ArgForms": [["eq", "sep"][ctx.seed % 2]] if q else ["eq", "sep"]}}],
+                                                                "Zones": zones, "Langs": langs, "OmitAll": True, "Part": "all", "Currents": TlaSet(["given"]), "ArgForms": [["eq", "sep"][ctx.seed % 2]] if q else ["eq", "sep"], "Odds": [""]}}],
             invariants=["Inv_C20"], ops=[], cli=True,
             cfg={"ds": "<!-- <", "de": "> -->", "tl": "time-limited", "rm": "removal-marker", "off": "+00:00",
                  "now": [19000, 0], "targets": []}, nontrivial=None)
     ctx.job("cli-custom", gens=[{"base": "GenCli", "consts": {"Docs": [Chars(d) for d in CLI_DOCS_CUSTOM],
                                                               "TargetPool": [Chars("a"), Chars("b")],
-                                                              "Zones": zones[:1] if q else zones, "Langs": langs[:1], "OmitAll": False, "Part": "all", "Currents": TlaSet(["given"]), "ArgForms": ["eq", "sep"]}}],
+                                                              "Zones": zones[:1] if q else zones, "Langs": langs[:1], "OmitAll": False, "Part": "all", "Currents": TlaSet(["given"]), "ArgForms": ["eq", "sep"], "Odds": [""]}}],
             invariants=["Inv_C20"], ops=[], cli=True,
             cfg={"ds": "/* <", "de": "> */", "tl": "tl", "rm": "rm", "off": "+09:00", "now": [19000, 3600], "targets": []},
             nontrivial=None)
     # option values with leading / trailing blanks, upper-case tag names, an offset without colon
     ctx.job("cli-blank-delims", gens=[{"base": "GenCli", "consts": {"Docs": [Chars(d) for d in CLI_DOCS_BLANK],
                                                                    "TargetPool": [Chars("a"), Chars(" b ")],
-                                                                   "Zones": zones[:1], "Langs": langs[:1], "OmitAll": False, "Part": "stdout", "Currents": TlaSet(["given"]), "ArgForms": ["eq", "sep"]}}],
+                                                                   "Zones": zones[:1], "Langs": langs[:1], "OmitAll": False, "Part": "stdout", "Currents": TlaSet(["given"]), "ArgForms": ["eq", "sep"], "Odds": [""]}}],
             invariants=["Inv_C20"], ops=[], cli=True,
             cfg={"ds": " <", "de": "> ", "tl": "TL", "rm": "Rm", "off": "-0330", "now": [19000, 3600], "targets": []},
             nontrivial=None)
@@ -1098,16 +1101,23 @@ def check_C20(ctx):
         doc = tmpl.replace("/* <", ds).replace("> */", de)
         ctx.job("cli-spelling[%s|%s]" % (ds, de), gens=[{"base": "GenCli", "consts": {"Docs": [Chars(doc)], "TargetPool": [Chars("a"), Chars("zz")],
                                                                    "Zones": zones[:1], "Langs": langs[:1], "OmitAll": False, "Part": "stdout",
-                                                                   "Currents": TlaSet(["given"]), "ArgForms": ["eq", "sep"]}}],
+                                                                   "Currents": TlaSet(["given"]), "ArgForms": ["eq", "sep"], "Odds": [""]}}],
                 invariants=["Inv_C20"], ops=[], cli=True,
                 cfg={"ds": ds, "de": de, "tl": "tl", "rm": "rm", "off": "+09:00", "now": [19000, 3600], "targets": []}, nontrivial=None)
+    # growth beyond C20: option combinations and failures outside every property (both list flags, --list-json alone, an input
+    # that cannot be opened, an output that cannot be created): Conform!ConfCliOdd predicts them, DRIFT only
+    ctx.job("cli-odd", gens=[{"base": "GenCli", "consts": {"Docs": [Chars(CLI_DOCS_CUSTOM[1])], "TargetPool": [Chars("a")],
+                                                           "Zones": zones[:1], "Langs": langs[:1], "OmitAll": False, "Part": "all", "Currents": TlaSet(["given"]),
+                                                           "ArgForms": ["eq"], "Odds": ["both_lists", "json_clean", "missing_input", "bad_outdir"]}}],
+            invariants=["Inv_C20"], ops=[], cli=True, conform=True,
+            cfg={"ds": "/* <", "de": "> */", "tl": "tl", "rm": "rm", "off": "+09:00", "now": [19000, 3600], "targets": []}, nontrivial=None)
     cli_big_job(ctx)
     # growth beyond C20: no (usable) --time-limited-current, the process reads the system clock; the harness reads it before
     # and after the run, Conform!ConfWallClock compares with the library result (reported as DRIFT, never as a verdict)
     ctx.job("cli-wallclock", gens=[{"base": "GenCli", "consts": {"Docs": [Chars(d) for d in (CLI_DOCS_DEFAULT[1:2] + CLI_DOCS_DEFAULT[3:5])],
                                                                  "TargetPool": [Chars("a"), Chars("feature1")],
                                                                  "Zones": zones[:2], "Langs": langs[:1], "OmitAll": True, "Part": "stdout",
-                                                                 "Currents": TlaSet(["omit", "garbage"]), "ArgForms": ["eq"]}}],
+                                                                 "Currents": TlaSet(["omit", "garbage"]), "ArgForms": ["eq"], "Odds": [""]}}],
             invariants=["Inv_C20"], ops=[], cli=True, conform=True,
             cfg={"ds": "<!-- <", "de": "> -->", "tl": "time-limited", "rm": "removal-marker", "off": "+00:00",
                  "now": [19000, 0], "targets": []}, nontrivial=None)
@@ -1117,7 +1127,7 @@ CHECKS = {"C01": check_C01, "C02": check_C02, "C03": check_C03, "C04": check_C04
           "C11": check_C11, "C12": check_C12, "C13": check_C13, "C14": check_C14, "C15": check_C15, "C16": check_C16,
           "C17": check_C17, "C05": check_C05, "C06": check_C06, "C09": check_C09, "C10": check_C10, "C18": check_C18,
           "C19": check_C19, "C20": check_C20}
-NEEDS_CLI = {"C05", "C06", "C20", "C01", "C18"}
+NEEDS_CLI = {"C05", "C06", "C20", "C01", "C18", "C04"}
 
 
 RULES = {
@@ -1181,7 +1191,7 @@ def pump_job(ctx, invariants, ops, units, ks, cores=(0, 1), name="pumped"):
     ctx.job(name, gens=gens, invariants=invariants, ops=ops, cfg={"ds": "<", "de": ">"}, nontrivial=has_ready, shards=8)
 
 
-def cli_big_job(ctx):
+def cli_big_job(ctx, invariants=("Inv_C20",), targets=("a",), ks=None):
     """documents beyond every buffer size of a pipe or a chunked reader (8 KiB, 64 KiB), multi-byte characters at every
     alignment, through standard input and through a file: the command must return what the library returns"""
     from vlib import TlaSet
@@ -1189,14 +1199,14 @@ def cli_big_job(ctx):
 
     def cli(inp, outp, mode, js):
         return {"op": "cli", "input": inp, "output": outp, "mode": mode, "json": js, "targets_via": "flags", "tz": "unset", "lang": "",
-                "now_zone_min": 0, "file_targets": [], "flag_targets": [Chars("a")], "omit": []}
+                "now_zone_min": 0, "file_targets": [], "flag_targets": [Chars(t) for t in targets], "omit": []}
     ops = [{"op": "clean"}, cli("stdin", "stdout", "clean", False), cli("file", "file", "clean", False),
            {"op": "list_json"}, cli("stdin", "stdout", "list", True)]
     units = [[Chars("é"), Chars("あ")], [Chars("aé"), Chars("😀b")], [Chars("p\x01; é\n"), Chars("")]]
     gens = [{"base": "GenPump", "workers": 2,
-             "consts": {"Units": units, "Cores": [Chars(PUMP_CORES[0])], "Ks": TlaSet([3000, 9000] if q else [1500, 3000, 9000, 25000])}}]
-    ctx.job("cli-big", gens=gens, invariants=["Inv_C20"], ops=ops, cli=True,
-            cfg={"ds": "<", "de": ">", "tl": "tl", "rm": "rm", "off": "+00:00", "now": [19000, 0], "targets": ["a"]}, nontrivial=None, shards=6)
+             "consts": {"Units": units, "Cores": [Chars(PUMP_CORES[0])], "Ks": TlaSet(ks or ([3000, 9000] if q else [1500, 3000, 9000, 25000]))}}]
+    ctx.job("cli-big", gens=gens, invariants=list(invariants), ops=ops, cli=True,
+            cfg={"ds": "<", "de": ">", "tl": "tl", "rm": "rm", "off": "+00:00", "now": [19000, 0], "targets": list(targets)}, nontrivial=None, shards=6)
 
 
 def hist_pumped_job(ctx):
